@@ -390,6 +390,14 @@ func (p *service) processUnsubscribe(msg *message.UnsubscribeMessage) error {
 // the ack cycle. This method will get the list of subscribers based on the publish
 // topic, and publishes the message to the list of subscribers.
 func (p *service) onPublish(msg *message.PublishMessage) error {
+	// The DUP flag of an incoming PUBLISH tells this receiver that the sender
+	// retransmitted it. It is not propagated [MQTT-3.3.1-3]: what the subscribers
+	// (and the retained store) get is a first delivery, and with a granted QoS of
+	// 0 a propagated flag would make the forwarded packet malformed.
+	if msg.Dup() {
+		msg.SetDup(false)
+	}
+
 	if msg.Retain() {
 		// Retain makes a copy of msg.
 		if err := p.topicsMgr.Retain(msg); err != nil {
